@@ -2,8 +2,8 @@
    np.nextafter(x, +inf) = succ x, np.nextafter(x, -inf) = pred x.  The model takes succ/pred as
    parameters; proofs assume [carrier isD succ pred]; B64 below is the executable instance
    (binary64 nextafter computed on exact rationals), validated bit-for-bit against np.nextafter
-   by the correspondence runs.  That binary64 satisfies [carrier] is an IEEE-754 fact listed in
-   the trusted base, not proved here. *)
+   by the correspondence runs.  That this instance satisfies [carrier] (for the set of rationals
+   m * 2^e, |m| < 2^53, e >= -1074) is proved in Proofs/CarrierB64.v (b64_carrier). *)
 From SA Require Export Base.Prelude.
 Open Scope Q_scope.
 
